@@ -153,7 +153,16 @@ static int destructure(JanetCompiler *c,
                                    const uint8_t *sym,
                                    JanetSlot s,
                                    JanetTable *attr),
-                       JanetTable *attr) {
+                       JanetTable *attr);
+
+static int destructure_impl(JanetCompiler *c,
+                            Janet left,
+                            JanetSlot right,
+                            int (*leaf)(JanetCompiler *c,
+                                        const uint8_t *sym,
+                                        JanetSlot s,
+                                        JanetTable *attr),
+                            JanetTable *attr) {
     switch (janet_type(left)) {
         default:
             janetc_error(c, janet_formatc("unexpected type in destructuring, got %v", left));
@@ -260,6 +269,25 @@ static int destructure(JanetCompiler *c,
         }
         return 1;
     }
+}
+
+/* Nested patterns recurse natively: share the compiler's depth budget */
+static int destructure(JanetCompiler *c,
+                       Janet left,
+                       JanetSlot right,
+                       int (*leaf)(JanetCompiler *c,
+                                   const uint8_t *sym,
+                                   JanetSlot s,
+                                   JanetTable *attr),
+                       JanetTable *attr) {
+    if (c->recursion_guard <= 1) {
+        janetc_cerror(c, "recursed too deeply");
+        return 1;
+    }
+    c->recursion_guard--;
+    int result = destructure_impl(c, left, right, leaf, attr);
+    c->recursion_guard++;
+    return result;
 }
 
 /* Create a source map for definitions. */
